@@ -1,4 +1,4 @@
-//@@ {"wip":true,"inject":"src/xz/reader.rs","features":"encoder,xz"}
+//@@ {"inject":"src/xz/reader.rs","features":"encoder,xz"}
 
 fn crc32_of(a: &[u8]) -> u32 {
     CRC32.checksum(a)
@@ -68,3 +68,30 @@ fn c04e_index_record_wrong_unpadded() { index_record_vs_block(4, 0); }
 #[kani::proof]
 #[kani::unwind(10)]
 fn c04e_index_record_wrong_uncompressed() { index_record_vs_block(0, 1); }
+
+// C04-A2: an index that lists MORE records than blocks were decoded (blocks deleted from the file, index kept) is an error.
+// (c04a_index_count_matches_blocks covers "fewer records than blocks" with an empty index.)
+//@ {"name":"c04e_index_more_records_than_blocks","props":["C04","C12"],"obligation":"C04-A","timeout":1800,"mem_gb":9,"functions":["xz::reader::XZReader::read","xz::reader::XZReader::prepare_next_block","xz::reader::XZReader::parse_index_and_footer","xz::reader::Index::parse"],"bounds":"no block decoded; source = index with one (arbitrary non-zero sized) record + valid footer; unwind 10","assumes":[],"stubs":[]}
+#[kani::proof]
+#[kani::unwind(10)]
+fn c04e_index_more_records_than_blocks() {
+    let mut buf = [0u8; 20];
+    let ix = [0u8, 1, 6, 6];
+    let c = crc32_of(&ix).to_le_bytes();
+    buf[0] = ix[0]; buf[1] = ix[1]; buf[2] = ix[2]; buf[3] = ix[3];
+    buf[4] = c[0]; buf[5] = c[1]; buf[6] = c[2]; buf[7] = c[3];
+    let body = [1u8, 0, 0, 0, 0, 0];
+    let c = crc32_of(&body).to_le_bytes();
+    buf[8] = c[0]; buf[9] = c[1]; buf[10] = c[2]; buf[11] = c[3];
+    let mut i = 0;
+    while i < 6 { buf[12 + i] = body[i]; i += 1; }
+    buf[18] = b'Y'; buf[19] = b'Z';
+    let mut src = Src::<20>::full(buf);
+    let mut r = XZReader::new(&mut src, false);
+    r.stream_header = Some(StreamHeader { check_type: CheckType::None });
+    let mut out = [0u8; 4];
+    let e = r.read(&mut out);
+    assert!(e.is_err(), "C04-A: index lists more records than blocks were decoded, but the stream was accepted");
+    kani::cover!(true, "end reached");
+    core::mem::forget(r);
+}
